@@ -60,7 +60,7 @@ func verifC02NewTxScene(ne, home int, conc int) *verifC02TxScene {
 		// another transaction of this epoch
 		o := &verifC02Tx{slot: a.lo() + 1, hasPos: true, pos: 9, sig: verifC02Sig("otherSig")}
 		verifAssume(o.sig != sig)
-		o.data = a.payload("otherData", 1, verifC02OneFrameLegacy, false)
+		o.data = a.txDataPayload(o.sig, "otherData", 1, verifC02OneFrameLegacy, false)
 		o.meta = a.payload("otherMeta", 1, verifC02OneFrameLegacy, false)
 		a.txs = append(a.txs, a.addTx(o))
 		if i == home {
@@ -73,7 +73,7 @@ func verifC02NewTxScene(ne, home int, conc int) *verifC02TxScene {
 			}
 			plan := verifChoice("layoutPlan", verifParam("layoutPlans", verifC02NumLayouts))
 			withHash := verifChoice("frameHash", verifParam("hashModes", 2)) == 1
-			t.data = a.payload("txData", verifParam("dataLen", 3), plan, withHash)
+			t.data = a.txDataPayload(t.sig, "txData", verifParam("dataLen", 3), plan, withHash)
 			t.meta = a.payload("txMeta", verifParam("metaLen", 3)*(verifChoice("metaPresent", verifParam("metaModes", 2))+2-verifParam("metaModes", 2)), (plan+2)%verifC02NumLayouts, withHash)
 			a.txs = append(a.txs, a.addTx(t))
 			sc.a, sc.t = a, t
